@@ -295,9 +295,18 @@ struct Exec {
     /// the ops the specification speaks about, with the implementation's answers (oracle line for the Lean spec)
     spec_wire: Vec<String>,
     spec_answers: Vec<String>,
+    /// API-observable representation (previous entry returned by `register`, key vector left by
+    /// `lookup_state`): compared with the model on a line of its own (`kmrep`)
+    rep_wire: Vec<String>,
+    rep_answers: Vec<String>,
+    /// reference matcher: the keys pending as far as the PROPERTY determines them (`None`: it does not)
+    ref_pending: Option<Vec<Key>>,
+    /// keys since the last fire or reset of the state vector (the reset contents included)
+    since_reset: Vec<Key>,
     unsorted_enum: bool,
     lookups: u64,
     typed_chords: u64,
+    judged_keys: u64,
 }
 
 impl Exec {
@@ -312,15 +321,27 @@ impl Exec {
             answers: vec![],
             spec_wire: vec![],
             spec_answers: vec![],
+            rep_wire: vec![],
+            rep_answers: vec![],
+            ref_pending: Some(vec![]),
+            since_reset: vec![],
             unsorted_enum: false,
             lookups: 0,
             typed_chords: 0,
+            judged_keys: 0,
         }
     }
 
     fn emit(&mut self, w: String, a: String) {
         self.wire.push(w);
         self.answers.push(a);
+    }
+
+    fn emit_rep(&mut self, w: String, a: Option<String>) {
+        self.rep_wire.push(w);
+        if let Some(a) = a {
+            self.rep_answers.push(a);
+        }
     }
 
     fn emit_spec(&mut self, w: String, a: String) {
@@ -380,16 +401,77 @@ impl Exec {
         Ok(())
     }
 
-    /// feed one key; returns what fired
-    fn key(&mut self, k: Key) -> Option<u32> {
+    /// Feed one key; returns what fired.  Judged on the spot by the reference matcher, which knows only the
+    /// dictionary and the property:
+    /// * soundness — a fire needs a chord bound to that value that is a suffix of the keys since the last fire / reset;
+    /// * pending `p` known and `p + key` bound: must fire its value, nothing pending afterwards;
+    /// * `p + key` a proper prefix of a bound chord: must not fire, `p + key` pending;
+    /// * `p + key` dead and the key begins no bound chord: afterwards the matcher must behave as idle
+    ///   ("an unbound key never prevents the chord typed immediately after it from firing", from any state);
+    /// * `p + key` dead and the key begins a chord: the restart policy is the implementation's business — the
+    ///   reference stops predicting until the next fire, reset or foreign key.
+    fn key(&mut self, k: Key) -> Result<Option<u32>, Failure> {
         let r = self.a.lookup_state(&mut self.state, k).copied();
         let a = match r {
             None => "N".to_string(),
             Some(v) => format!("S{v}"),
         };
         let st = chord_wire(&self.state);
-        self.emit(format!("k={}", key_wire(&k)), format!("{a}/{st}"));
-        r
+        self.emit(format!("k={}", key_wire(&k)), a.clone());
+        self.emit_rep(format!("k={}", key_wire(&k)), Some(st));
+        self.since_reset.push(k);
+        if let Some(v) = r {
+            let ok = self.da.0.iter().any(|(c, x)| *x == v && self.since_reset.ends_with(c));
+            if !ok {
+                return Err(Failure {
+                    what: "matcher fired a value although no chord bound to it ends at this key".to_string(),
+                    expected: json!("a bound chord that is a suffix of the keys since the last fire or reset"),
+                    got: json!(format!("S{v} after {}", chord_wire(&self.since_reset))),
+                });
+            }
+            self.since_reset.clear();
+        }
+        match self.ref_pending.take() {
+            Some(p) => {
+                self.judged_keys += 1;
+                let mut q = p.clone();
+                q.push(k);
+                match self.da.lookup(&q) {
+                    Ans::Success(v) => {
+                        if r != Some(v) {
+                            return Err(Failure {
+                                what: format!("matcher: pending {} + key {} is a bound chord but its value did not fire", chord_wire(&p), key_wire(&k)),
+                                expected: json!(format!("S{v}")),
+                                got: json!(a),
+                            });
+                        }
+                        self.ref_pending = Some(vec![]);
+                    }
+                    Ans::Continue => {
+                        if r.is_some() {
+                            return Err(Failure {
+                                what: format!("matcher: pending {} + key {} is a proper prefix of a bound chord but something fired", chord_wire(&p), key_wire(&k)),
+                                expected: json!("N"),
+                                got: json!(a),
+                            });
+                        }
+                        self.ref_pending = Some(q);
+                    }
+                    Ans::Failure => {
+                        if !self.da.begins_chord(&k) || r.is_some() {
+                            self.ref_pending = Some(vec![]);
+                        }
+                    }
+                }
+            }
+            None => {
+                let foreign = !self.da.0.iter().any(|(c, _)| c.contains(&k));
+                if r.is_some() || foreign {
+                    self.ref_pending = Some(vec![]);
+                }
+            }
+        }
+        Ok(r)
     }
 
     fn run(&mut self, op: &Op) -> Result<(), Failure> {
@@ -397,7 +479,9 @@ impl Exec {
             Op::RegA(c, v) => {
                 let prev = self.a.register(c.as_slice(), *v);
                 let p = self.show_prev(prev);
-                self.emit(format!("ra={}={}", chord_wire(c), v), p);
+                self.emit(format!("ra={}={}", chord_wire(c), v), "r".to_string());
+                self.emit_rep(format!("ra={}={}", chord_wire(c), v), Some(p));
+                self.ref_pending = None;
                 self.emit_spec(format!("ra={}={}", chord_wire(c), v), "r".to_string());
                 self.da.bind(c, *v);
                 if !c.is_empty() {
@@ -414,7 +498,8 @@ impl Exec {
             Op::RegB(c, v) => {
                 let prev = self.b.register(c.as_slice(), *v);
                 let p = self.show_prev(prev);
-                self.emit(format!("rb={}={}", chord_wire(c), v), p);
+                self.emit(format!("rb={}={}", chord_wire(c), v), "r".to_string());
+                self.emit_rep(format!("rb={}={}", chord_wire(c), v), Some(p));
                 self.emit_spec(format!("rb={}={}", chord_wire(c), v), "r".to_string());
                 self.db.bind(c, *v);
             }
@@ -424,6 +509,8 @@ impl Exec {
             Op::Override => {
                 self.a.register_override(&self.b);
                 self.emit("o".to_string(), "o".to_string());
+                self.emit_rep("o".to_string(), None);
+                self.ref_pending = None;
                 self.emit_spec("o".to_string(), "o".to_string());
                 // the other map's chords are pairwise unrelated, so the order of replay is immaterial
                 let other = self.db.0.clone();
@@ -432,35 +519,29 @@ impl Exec {
                 }
             }
             Op::Key(k) => {
-                let before: Vec<Key> = self.state.clone();
-                let fired = self.key(*k);
-                // soundness of a fire: some bound chord with that value ends at this key
-                if let Some(v) = fired {
-                    let mut typed = before;
-                    typed.push(*k);
-                    let ok = self.da.0.iter().any(|(c, x)| *x == v && typed.ends_with(c));
-                    if !ok {
-                        return Err(Failure {
-                            what: "matcher fired a value although no chord bound to it ends at this key".to_string(),
-                            expected: json!("a bound chord that is a suffix of the pending keys"),
-                            got: json!(format!("S{v} on pending {}", chord_wire(&typed))),
-                        });
-                    }
-                }
+                self.key(*k)?;
             }
             Op::SetState(c) => {
                 self.state = c.clone();
+                self.ref_pending = Some(c.clone());
+                self.since_reset = c.clone();
                 self.emit(format!("s={}", chord_wire(c)), "s".to_string());
+                self.emit_rep(format!("s={}", chord_wire(c)), None);
             }
             Op::ClearA => {
                 self.a.clear();
                 self.da = Dict::default();
                 self.emit("c".to_string(), "c".to_string());
+                self.emit_rep("c".to_string(), None);
+                self.ref_pending = None;
                 self.emit_spec("c".to_string(), "c".to_string());
             }
             Op::Typed(segs) => {
                 self.state.clear();
+                self.ref_pending = Some(vec![]);
+                self.since_reset.clear();
                 self.emit("s=-".to_string(), "s".to_string());
+                self.emit_rep("s=-".to_string(), None);
                 // second matcher: the public handler type, loaded with the same bindings
                 let mut handler: KeyMapHandler<u32> = KeyMapHandler::new();
                 for (c, v) in self.da.0.iter() {
@@ -471,7 +552,7 @@ impl Exec {
                     match seg {
                         Seg::Junk(u) => {
                             structured &= !self.da.begins_chord(u);
-                            let r = self.key(*u);
+                            let r = self.key(*u)?;
                             let r2 = handler.handle(*u).copied();
                             if structured && (r.is_some() || r2.is_some()) {
                                 return Err(Failure {
@@ -488,7 +569,7 @@ impl Exec {
                             };
                             structured &= want.is_some();
                             for (i, k) in c.iter().enumerate() {
-                                let r = self.key(*k);
+                                let r = self.key(*k)?;
                                 let r2 = handler.handle(*k).copied();
                                 if structured {
                                     let expect = if i + 1 == c.len() { want } else { None };
@@ -596,7 +677,7 @@ fn script_case(out: &mut Out, tag: &str, ops: Vec<Op>) {
             let ans = ex.answers.join(" ");
             let regs = ops.iter().filter(|o| matches!(o, Op::RegA(..) | Op::RegB(..))).count();
             out.case(&req, regs >= 2);
-            out.evaluations += ex.lookups + ex.typed_chords;
+            out.evaluations += ex.lookups + ex.typed_chords + ex.judged_keys;
             if ex.unsorted_enum {
                 out.hist("enum:not-in-key-order(canonicalised)");
             }
@@ -606,6 +687,11 @@ fn script_case(out: &mut Out, tag: &str, ops: Vec<Op>) {
                 out.sample(json!({"kind": "script", "tag": tag, "request": req.chars().take(400).collect::<String>(), "impl": ans.chars().take(200).collect::<String>()}));
             }
             out.corr(&req, &ans);
+            // representation only: a mismatch on a `kmrep` line with the `km` line intact means the returned
+            // previous entry or the leftover key vector changed, not any lookup / enumeration / matcher answer
+            if !ex.rep_answers.is_empty() {
+                out.corr(&format!("c18 kmrep {}", ex.rep_wire.join(" ")), &ex.rep_answers.join(" "));
+            }
             // the verified Lean specification (bind / bindAll / answer) on the same history must give what the
             // implementation answered
             if !ex.spec_wire.is_empty() {
@@ -769,6 +855,16 @@ fn gen_history(rng: &mut Rng, pool: &[Key], thorough: bool) -> Vec<Op> {
             _ => {}
         }
     }
+    // a few long chords, so that long prefixes can be pending when a chord is aborted
+    if rng.chance(1, 2) {
+        for _ in 0..(1 + rng.below(2)) {
+            let len = 4 + rng.below(3) as usize;
+            let c: Vec<Key> = (0..len).map(|_| *rng.pick(&alpha)).collect();
+            da.bind(&c, next_val);
+            ops.push(Op::RegA(c, next_val));
+            next_val += 1;
+        }
+    }
     if rng.chance(1, 2) {
         ops.push(Op::EnumB);
         ops.push(Op::Override);
@@ -794,6 +890,42 @@ fn gen_history(rng: &mut Rng, pool: &[Key], thorough: bool) -> Vec<Op> {
         ops.push(Op::SetState(rand_chord(rng, &with_junk, 3)));
         for _ in 0..(1 + rng.below(6)) {
             ops.push(Op::Key(*rng.pick(&with_junk)));
+        }
+    }
+    // aborted chords: a proper prefix of a bound chord (the longest ones favoured) or an arbitrary vector is
+    // pending, then a key that begins no bound chord, then a bound chord - which has to fire
+    let unbound: Vec<Key> = with_junk.iter().filter(|k| !da.begins_chord(k)).cloned().collect();
+    if !da.0.is_empty() && !unbound.is_empty() {
+        let mut by_len: Vec<&(Vec<Key>, u32)> = da.0.iter().collect();
+        by_len.sort_by_key(|(c, _)| std::cmp::Reverse(c.len()));
+        for round in 0..(1 + rng.below(3)) {
+            let pending: Vec<Key> = if round == 0 || rng.chance(2, 3) {
+                let (c, _) = if rng.chance(2, 3) { by_len[0] } else { *rng.pick(&by_len) };
+                if c.len() < 2 {
+                    vec![]
+                } else {
+                    let j = if rng.chance(1, 2) { c.len() - 1 } else { 1 + rng.below(c.len() as u64 - 1) as usize };
+                    c[..j].to_vec()
+                }
+            } else {
+                (0..(1 + rng.below(5))).map(|_| *rng.pick(&with_junk)).collect()
+            };
+            if rng.chance(1, 2) {
+                ops.push(Op::SetState(pending));
+            } else {
+                ops.push(Op::SetState(vec![]));
+                for k in pending {
+                    ops.push(Op::Key(k));
+                }
+            }
+            for _ in 0..(1 + rng.below(2)) {
+                ops.push(Op::Key(*rng.pick(&unbound)));
+            }
+            for _ in 0..(1 + rng.below(2)) {
+                for k in rng.pick(&da.0).0.clone() {
+                    ops.push(Op::Key(k));
+                }
+            }
         }
     }
     ops
@@ -857,6 +989,25 @@ fn corner_histories(pool: &[Key]) -> Vec<(&'static str, Vec<Op>)> {
         ops.push(Op::Key(k));
     }
     res.push(("matcher", ops));
+    // aborted chord with three and four keys pending, then an unbound key, then a chord (one and two keys)
+    let mut ops = vec![Op::RegA(vec![a, b, a, b, a], 1), Op::RegA(vec![x], 2), Op::RegA(vec![b, x], 3)];
+    for pending in [3usize, 4, 2, 1] {
+        ops.push(Op::SetState(vec![]));
+        for k in [a, b, a, b][..pending].iter() {
+            ops.push(Op::Key(*k));
+        }
+        ops.push(Op::Key(f1));
+        ops.push(Op::Key(x));
+        ops.push(Op::SetState([a, b, a, b][..pending].to_vec()));
+        ops.push(Op::Key(f1));
+        ops.push(Op::Key(b));
+        ops.push(Op::Key(x));
+        ops.push(Op::Key(x));
+    }
+    ops.push(Op::SetState(vec![f1, f1, x, f1, b]));
+    ops.push(Op::Key(f1));
+    ops.push(Op::Key(x));
+    res.push(("matcher-aborted-chord", ops));
     // order of iteration across variants, payloads and modifiers
     let mut ops: Vec<Op> = Vec::new();
     for (i, k) in pool.iter().enumerate().rev() {
@@ -1226,6 +1377,34 @@ fn unicode_sweep(out: &mut Out, step: u32) {
 
 // ---------------------------------------------------------------------------------------------------------
 
+/// `Ord for Key` (derived) against the model's order of key codes
+fn cmp_case(out: &mut Out, a: &Key, b: &Key) {
+    let ans = match a.cmp(b) {
+        std::cmp::Ordering::Less => "lt",
+        std::cmp::Ordering::Equal => "eq",
+        std::cmp::Ordering::Greater => "gt",
+    };
+    out.hist("cmp");
+    out.case(&format!("cmp {} {}", key_wire(a), key_wire(b)), a != b);
+    out.corr(&format!("c18 cmp {} {}", key_wire(a), key_wire(b)), ans);
+}
+
+fn rand_key(rng: &mut Rng, pool: &[Key]) -> Key {
+    let name = match rng.below(6) {
+        0 => KeyName::Char(char::from_u32(rng.below(0x11_0000) as u32).unwrap_or('x')),
+        1 => KeyName::Char(char::from(b'a' + rng.below(4) as u8)),
+        2 => KeyName::F(rng.below(14) as usize),
+        3 => KeyName::F(match rng.below(3) {
+            0 => rng.next() as usize,
+            1 => usize::MAX - rng.below(3) as usize,
+            _ => (1usize << rng.below(64)) - rng.below(2) as usize,
+        }),
+        _ => rng.pick(pool).name,
+    };
+    let bits = if rng.chance(1, 2) { rng.below(512) as u32 } else { [0u32, 1, 2, 4, 256, 511][rng.below(6) as usize] };
+    Key::new(name, KeyMod::from_bits(bits))
+}
+
 fn replay(out: &mut Out, input: &Value) {
     match input["kind"].as_str() {
         Some("script") => {
@@ -1266,6 +1445,19 @@ fn main() {
     }
     for k in pool.iter() {
         print_case(&mut out, k);
+    }
+
+    // derived order of keys: every pair of the pool, then random pairs (close payloads and modifier sets favoured)
+    for a in pool.iter() {
+        for b in pool.iter() {
+            cmp_case(&mut out, a, b);
+        }
+    }
+    let ncmp = if cfg.thorough { 100_000 } else { 4_000 };
+    for _ in 0..ncmp {
+        let a = rand_key(&mut rng, &pool);
+        let b = if rng.chance(1, 3) { Key::new(a.name, KeyMod::from_bits(rng.below(512) as u32)) } else { rand_key(&mut rng, &pool) };
+        cmp_case(&mut out, &a, &b);
     }
 
     // histories
